@@ -97,6 +97,12 @@ def evaluate(script, tr):
             nclosed_in = True
         if mv[0] == "g" and res == "ok":
             released.add(int(mv[1:]))
+        if mv[0] == "r" and res == "closed-while-call-running":
+            # the harness saw the close while a gated call that had started was not yet released: a worker is still inside
+            # the user function (holds with and without cancellation: the closer waits for every worker)
+            vs.append(vlib.Violation("impl", "fork.%s: output %s closed while a worker was still inside the user function (its call had started and was not released)" % (st, mv[1:]),
+                                     case=script, expected="closed only after every worker has finished", got="closed", key=dict(key, **{"class": "closed-before-workers-finished"})))
+            break
         if mv[0] == "r" and res == "closed" and not cancelled_for_results:
             if not nclosed_in:
                 vs.append(vlib.Violation("impl", "fork.%s: output closed while the input was still open" % st, case=script, key=key))
